@@ -23,6 +23,7 @@ _WEIGHTS = [("cartesian", 2), ("argcomb", 2), ("field", 2), ("withfield", 2), ("
 _OPS = [name for name, w in _WEIGHTS for _ in range(w)]
 
 
+_FOCUS_ONLY = {"withslot"}        # drawn only by the checks that name them (the other checks' chains stay what they were)
 _KIND_OF = {"argsort": "sort", "rt_buffers": "rt", "rt_pickle": "rt", "rt_arrow": "rt", "rt_json": "rt", "rt_iter": "rt"}
 
 
@@ -57,6 +58,8 @@ def _rand_op(rng, focus=None):
         return "field", {"key": rng.choice(["x", "y", "a", "b", "0", "1"])}
     if kind == "withfield":
         return "withfield", {"key": rng.choice(["x", "y", "a", "b"]), "new": rng.choice(["z", "x", "a"])}
+    if kind == "withslot":
+        return "withslot", {"slot": rng.choice([0, 0, 1, 1, 2]), "vals": [rng.randint(-2, 9) for _ in range(12)]}
     if kind == "withfield_b":
         return "withfield_b", {"new": rng.choice(["z", "x", "y"]), "vals": [rng.randint(-2, 9) for _ in range(12)]}
     if kind == "rt":
@@ -104,6 +107,14 @@ def _rand_op(rng, focus=None):
     return kind, {}                     # singletons, firsts, concatperm, bcperm, concat0, concat1, zip, unflatten
 
 
+def _slots_by_name(e):
+    if isinstance(e, tuple):
+        return {str(i): x for i, x in enumerate(e)}
+    if isinstance(e, dict):
+        return {k: e[k] for k in sorted(e)}
+    return e
+
+
 def _maxabs(x):
     if isinstance(x, (list, tuple)):
         return max([_maxabs(e) for e in x] or [0])
@@ -116,7 +127,7 @@ def _maxabs(x):
 
 def gen_cases(seed, n, maxops, outdir, focus=None):
     rng = random.Random(seed)
-    known = set(name for name, w in _WEIGHTS)
+    known = set(name for name, w in _WEIGHTS) | _FOCUS_ONLY
     focus = sorted(set(_KIND_OF.get(o, o) for o in (focus or ())) & known)
     records = bool(set(focus) & {"field", "withfield", "withfield_b", "zip", "bcperm", "concatperm"})
     structural = bool(set(focus) & {"num", "flatten", "localindex"})
@@ -271,6 +282,11 @@ def _call(ak, np, op, a, A):
         return ak.with_field(A, ak.Array(a["vals"]) if len(a["vals"]) else ak.Array(np.array([], dtype=np.int64)), a["new"])
     if op == "withfield":
         return ak.with_field(A, A[a["key"]], a["new"])
+    if op == "withslot":
+        # overwrite an EXISTING slot of a tuple: 3-tuples (x, x, x) per element, slot `slot` := vals[i]
+        Z = ak.zip((A, A, A), depth_limit=1)
+        V = ak.Array(a["vals"]) if len(a["vals"]) else ak.Array(np.array([], dtype=np.int64))
+        return ak.with_field(Z, V, str(a["slot"]))
     if op == "ufunc":
         return (A * 2 + 1) if a["mul"] else (A + A)
     if op == "addmasked":
@@ -354,6 +370,8 @@ def h_chain(case, pick, st, stats):
             if '"x":' not in ty and '"a":' not in ty:
                 continue                             # no named records anywhere: a different question
             a["vals"] = (a["vals"] * 4)[:len(cur_list)]
+        if op == "withslot":
+            a["vals"] = (a["vals"] * 4)[:len(cur_list)]
         if op in ("mask", "addmasked"):
             a["m"] = (a["m"] * 3)[:len(cur_list)]
         if op == "fillnone":
@@ -421,13 +439,15 @@ def h_chain(case, pick, st, stats):
         try:
             if len(json.dumps(outl)) > trmod.MAX_VALUE_JSON:
                 break                                    # combinatorial blow-up: the chain stops before TLC's JSON reader does
+            if op == "withslot":
+                outl = [_slots_by_name(e) for e in outl]   # a tuple or a record whose fields are named by slot number, in slot order
             ev.update(ok=1, out=trmod._tag(outl, op in MOVE_OPS))
         except (ValueError, TypeError):
             break
         meta["lib"] = json.dumps(outl)[:400]
         rec["events"].append(ev)
         rec["metas"].append(meta)
-        if not isinstance(out, ak.Array) or len(out) > 40:
+        if not isinstance(out, ak.Array) or len(out) > 40 or op == "withslot":
             break
         A = out
     with open(os.path.join(case["outdir"], "ev-%d.ndjson" % os.getpid()), "a") as f:
